@@ -2,6 +2,7 @@ package main
 
 import (
 	"fmt"
+	"go/token"
 	"go/types"
 	"strings"
 
@@ -28,7 +29,8 @@ func runC11(c *Ctx, tier string) {
 	// configuration would carry one run's settings into the next)
 	c05Effects(c, r, cs, NewEffects(c))
 	freshInstances(c, r, cs)
-	filterChecks(c, r, false)
+	filterChecks(c, r, true)
+	c08Empty(c, r) // when Filter may hand back the registry it was given instead of a copy
 	c11Example(c, r)
 	r.Finish()
 }
@@ -266,6 +268,31 @@ func c11Configurables(c *Ctx, r *Report, cs *Census) {
 				ok = false
 				why = "returns " + apath(rv[0])
 			}
+			// "a pointer into its own instance": the receiver itself or the address of one of
+			// its fields. A pointer LOADED from a field may point anywhere (a package-level
+			// settings struct shared by all instances): it must have been set by the lint's
+			// constructor to memory allocated in that call.
+			v := rv[0]
+			for {
+				if mi, isMI := v.(*ssa.MakeInterface); isMI {
+					v = mi.X
+					continue
+				}
+				if ct, isCT := v.(*ssa.ChangeType); isCT {
+					v = ct.X
+					continue
+				}
+				break
+			}
+			if ld, isLoad := v.(*ssa.UnOp); isLoad && ld.Op == token.MUL {
+				if fa, isFA := ld.X.(*ssa.FieldAddr); isFA {
+					fld := fieldVar(fa).Name()
+					if !ctorSetsFieldFresh(reg.Ctor, fld) {
+						ok = false
+						why = "returns the pointer held in field " + fld + ", which the constructor does not set to memory allocated for this instance"
+					}
+				}
+			}
 		}
 		r.Check(ok, "configure-returns-receiver", reg.ID(), fn.Pos(), "returns its own receiver", "Configure() of "+reg.ID()+" does not return (a pointer into) its own instance ("+why+"): options would be written into state shared between runs and registries")
 	}
@@ -318,4 +345,30 @@ func c11Example(c *Ctx, r *Report) {
 		}
 	})
 	r.Check(nput >= 3, "example-coverage", "sections", fn.Pos(), fmt.Sprintf("%d section stores", nput), fmt.Sprintf("only %d of the 3 per-kind loops store a section built from Configure() of a NEW INSTANCE (lint.Lint()) under the lint's name", nput))
+}
+
+// ctorSetsFieldFresh: every store the constructor makes into field fld of the
+// instance it returns stores the address of an object allocated in that call.
+func ctorSetsFieldFresh(ctor *ssa.Function, fld string) bool {
+	if ctor == nil || len(ctor.Blocks) == 0 {
+		return false
+	}
+	n, ok := 0, true
+	allInstrsDeep(ctor, func(in ssa.Instruction) {
+		st, isSt := in.(*ssa.Store)
+		if !isSt {
+			return
+		}
+		fa, isFA := st.Addr.(*ssa.FieldAddr)
+		if !isFA || fieldVar(fa).Name() != fld {
+			return
+		}
+		n++
+		v := st.Val
+		if a, isAlloc := v.(*ssa.Alloc); isAlloc && a.Heap {
+			return
+		}
+		ok = false
+	})
+	return n > 0 && ok
 }
